@@ -104,7 +104,7 @@ def gen_pat_string(rng, block, dec):
 
 
 def run(ctx):
-    pr = core.prove("C16", extra_modules=["MC.Props.C16Fold"])
+    pr = core.prove("C16", extra_modules=["MC.Props.C16Fold", "MC.Props.C12Sep"])
     core.proof_coverage(ctx, pr, "lake build MC.Props.C16 && lake env lean build/audit_C16.lean (#print axioms)",
                         ["modelled, not verified: the seven locale regexes as scanners, is_likely_a_number (neutral context), the scan of merge_number_blocks, trim_whitespace and merge_block (MC.Model.Numbers)",
                          "guards of the model: disjoint digit-free separator sets, one decimal-separator character, ASCII digits, no roman-numeral-shaped tokens, neutral context (no fences next to the block, not the end of the expression)",
